@@ -853,8 +853,37 @@ func (fr *Frame) instr(in ssa.Instruction) {
 			ex.oblige("safe", "nil-map-write", fmt.Sprintf("(not (= %s 0))", m.T), fr.curReach, "assignment to entry in nil map", x.Pos(), []string{"C19"})
 		}
 		fr.orderFreeCheck(x, m.T)
-		if mu, ok := fr.guardedSource(x.Map, 0); ok {
+		mu, guardedMap := fr.guardedSource(x.Map, 0)
+		if !guardedMap {
+			if root := guardedRootLoad(x.Map, 0); root != nil {
+				if u, ok := root.(*ssa.UnOp); ok {
+					if fa, ok := u.X.(*ssa.FieldAddr); ok {
+						mu, guardedMap = fr.guardedField(fa)
+					}
+				}
+			}
+		}
+		if guardedMap {
 			ex.oblige("lock", "write-map", fmt.Sprintf("(= %s 2)", fr.heldTerm(mu)), fr.curReach, "guarded map written while holding the write lock", x.Pos(), []string{"C12", "C20"})
+			// ... and the map value written through was read in this critical section: no unlock of any mutex lies between
+			// the read of the guarded field and this write (a value read under an earlier lock may be stale by now)
+			if root := guardedRootLoad(x.Map, 0); root != nil {
+				for _, b := range fr.fn.Blocks {
+					for _, in := range b.Instrs {
+						cl, isCall := in.(*ssa.Call)
+						if !isCall {
+							continue
+						}
+						d := fr.calleeDisplayQuick(&cl.Call)
+						if d != "sync.(*RWMutex).Unlock" && d != "sync.(*RWMutex).RUnlock" && d != "sync.(*Mutex).Unlock" {
+							continue
+						}
+						if instrDominates(root, cl) && instrDominates(cl, x) {
+							ex.oblige("lock", "stale-map", "false", fr.curReach, "guarded map written through a value that was read before the lock was last released", x.Pos(), []string{"C12", "C20"})
+						}
+					}
+				}
+			}
 		}
 		ex.mapUpdate(fr.curMem, mt, m.T, fr.val(x.Key).T, fr.val(x.Value).T)
 		// a map that holds a key has at least one entry
@@ -1635,4 +1664,50 @@ func (fr *Frame) loopExitClauses(li *loopInfo, b, succ *ssa.BasicBlock) {
 		ex.oblige("assert", fmt.Sprintf("loopexit#%d.%d", li.ord, i+1), g, reach, "assertion when loop "+fmt.Sprint(li.ord)+" has run to completion: "+s.Cl.Src, pos, s.Cl.Prop)
 		ex.assume(g, reach)
 	}
+}
+
+// guardedRootLoad: the load of a struct field from which the map value v was derived by lookups (nil if none).
+func guardedRootLoad(v ssa.Value, depth int) ssa.Instruction {
+	if depth > 4 {
+		return nil
+	}
+	switch x := v.(type) {
+	case *ssa.UnOp:
+		if _, ok := x.X.(*ssa.FieldAddr); ok && x.Op == token.MUL {
+			return x
+		}
+	case *ssa.Lookup:
+		return guardedRootLoad(x.X, depth+1)
+	case *ssa.Extract:
+		if t, ok := x.Tuple.(*ssa.Lookup); ok {
+			return guardedRootLoad(t.X, depth+1)
+		}
+	case *ssa.Phi:
+		for _, e := range x.Edges {
+			if r := guardedRootLoad(e, depth+1); r != nil {
+				return r
+			}
+		}
+	}
+	return nil
+}
+
+// instrDominates: a is executed before b on every path that reaches b.
+func instrDominates(a, b ssa.Instruction) bool {
+	ba, bb := a.Block(), b.Block()
+	if ba == nil || bb == nil {
+		return false
+	}
+	if ba != bb {
+		return ba.Dominates(bb)
+	}
+	for _, in := range ba.Instrs {
+		if in == a {
+			return true
+		}
+		if in == b {
+			return false
+		}
+	}
+	return false
 }
